@@ -128,6 +128,26 @@ def consume_rule(rep, prog, cfg):
             src2, _ = fl.sources([op_local(a["args"][0])], through_call=identity_through, follow_mut=False)
             if ("param", 2) in src2:
                 allowed.append((a["bb"], a["true"]))
+        elif a["kind"] == "cmp":
+            from ..common import op_int
+            k, x, op = op_int(b, a["rhs"]), a["lhs"], a["op"]
+            if k is None:
+                k, x = op_int(b, a["lhs"]), a["rhs"]
+                op = {"Lt": "Gt", "Gt": "Lt", "Le": "Ge", "Ge": "Le"}.get(op, op)
+            if k not in (0, 1) or op_local(x) is None:
+                continue
+            lv, _ = fl.sources([op_local(x)], through_call=None, follow_mut=False)
+            is_len = False
+            for leaf in lv:
+                if leaf[0] == "call" and any(n.endswith("::len") for n in callee_names(b.blocks[leaf[1]]["t"])):
+                    src2, _ = fl.sources([op_local(b.blocks[leaf[1]]["t"]["args"][0])], through_call=identity_through, follow_mut=False)
+                    if ("param", 2) in src2:
+                        is_len = True
+            if not is_len or any(z[0] == "const" for z in lv):
+                continue
+            empty_t = ({"Eq": a["true"], "Ne": a["false"], "Gt": a["false"], "Le": a["true"]} if k == 0 else {"Lt": a["true"], "Ge": a["false"]}).get(op)
+            if empty_t is not None:
+                allowed.append((a["bb"], empty_t))
     nones = ok_none_blocks(b)
     free = reach(g.succs, [0], avoid_edges=allowed)
     rep.check(nones and not (nones & free), "C02.need-more", cfg + "/Ok(None) only after Incomplete or on an empty buffer", b.loc(b.span),
